@@ -142,6 +142,16 @@ TPLimit == /\ Tr[l].e = "PLimit"
                   /\ ps' = IF ~s.live THEN ps ELSE [ps EXCEPT ![e.obj] = [s EXCEPT !.limit = n.limit]]
            /\ since' = since
 
+\* White-box probe (harness op pinject): the state object was overwritten with a chosen (V, C, counter, limit) - a state the
+\* API can reach in principle but sampling cannot (carries across many bytes of V + H + C + counter) - and the following
+\* events are judged from exactly that state.  PInjectSkip: the probe did not recognise the private layout and did nothing.
+TPInject == /\ Tr[l].e \in {"PInject", "PInjectSkip"}
+            /\ LET e == Tr[l] IN
+               IF e.e = "PInjectSkip" THEN ps' = [ps EXCEPT ![e.obj] = Dead]
+               ELSE /\ Judge(e.canary = 1 /\ Len(e.V) = 32 /\ Len(e.C) = 32 /\ e.counter >= 1 /\ e.limit \in 1..32768, l, e, "plan error: injected state")
+                    /\ ps' = [ps EXCEPT ![e.obj] = Mk([V |-> e.V, C |-> e.C, counter |-> e.counter, limit |-> e.limit])]
+            /\ since' = [since EXCEPT ![Tr[l].obj] = 0]
+
 TPFree == /\ Tr[l].e = "PFree"
           /\ LET e == Tr[l] IN
              /\ Judge(e.nonzero = 0 /\ e.canary = 1, l, e, "free zeroes the whole state object")
@@ -149,13 +159,14 @@ TPFree == /\ Tr[l].e = "PFree"
           /\ since' = since
 
 \* events of the other families (system-level traces): stuttering steps for this specification
-Own == {"Reset", "PInit", "PGen", "PFeed", "PReseed", "PLimit", "PFree"}
+Own == {"Reset", "PInit", "PGen", "PFeed", "PReseed", "PLimit", "PFree", "PInject", "PInjectSkip"}
 TForeign == Tr[l].e \notin Own \cup {"Fault", "San", "Hang", "Garbled"} /\ UNCHANGED <<ps, since>>
 
 Init == l = 1 /\ InitRegs /\ ps = [o \in Objs |-> Dead] /\ since = [o \in Objs |-> 0]
 Next == /\ l <= Len(Tr)
         /\ l' = l + 1
-        /\ (TReset \/ TPInit \/ TPGen \/ TPFeed \/ TPReseed \/ TPLimit \/ TPFree \/ TForeign)
+        /\ (("evals" \in DOMAIN Tr[l]) => Judge(Tr[l].evals = 1, l, Tr[l], "the object argument of the call was evaluated more than once"))
+        /\ (TReset \/ TPInit \/ TPGen \/ TPFeed \/ TPReseed \/ TPLimit \/ TPFree \/ TPInject \/ TForeign)
 Spec == Init /\ [][Next]_vars
 TraceAccepted == Accepted(Len(Tr))
 =============================================================================
